@@ -96,15 +96,20 @@ pub fn build_graph<IntT: for<'a> UInt<'a>>(
                 let encoded_kmer_1 = IntT::encode_kmer_str(&full_kmer[..len_kmer - 1]);
                 let encoded_kmer_2 = IntT::encode_kmer_str(&full_kmer[1..]);
 
-                all_kmers
-                    .entry(encoded_kmer_1)
-                    .or_default()
-                    .push(encoded_kmer_2);
-
-                all_kmers
-                    .entry(IntT::rev_comp(encoded_kmer_2, len_kmer - 1))
-                    .or_default()
-                    .push(IntT::rev_comp(encoded_kmer_1, len_kmer - 1));
+                // an edge is stored once: a split k-mer whose arms are reverse complements of
+                // each other yields the same two edges from both of its strands
+                for (from, to) in [
+                    (encoded_kmer_1, encoded_kmer_2),
+                    (
+                        IntT::rev_comp(encoded_kmer_2, len_kmer - 1),
+                        IntT::rev_comp(encoded_kmer_1, len_kmer - 1),
+                    ),
+                ] {
+                    let mut next_kmers = all_kmers.entry(from).or_default();
+                    if !next_kmers.contains(&to) {
+                        next_kmers.push(to);
+                    }
+                }
 
                 let encode_full = IntT::encode_kmer_str(&full_kmer);
                 kmer_samples
